@@ -303,7 +303,18 @@ func c06All(gw, sw, tr *File) map[string]c06Fact {
 				case deferred:
 					rel = c06Fact{No, c06At(gw, del)}
 				}
-				if is := c06InsideIf(fl.Body, del); is != nil {
+				// an explicit type check before the slice is touched: `if _, e := …Uint32SliceSize(); e != nil { …; return }`
+				early := false
+				for _, st := range fl.Body.List {
+					if is, ok := st.(*ast.IfStmt); ok && is.Init != nil && gw.Contains(is.Init, ".Uint32SliceSize()") &&
+						strings.HasSuffix(gw.Str(is.Cond), "!= nil") && gw.Contains(is.Body, "return") && is.End() < del.Pos() {
+						if ds := gw.CallsSuffix(fl.Body, ".Uint32SliceDelete"); len(ds) == 1 && is.End() < ds[0].Pos() {
+							early = true
+							chk = c06Fact{Yes, c06At(gw, is)}
+						}
+					}
+				}
+				if is := c06InsideIf(fl.Body, del); is != nil && !early {
 					// innermost if around DeleteTreasure is `if err := …DeleteTreasure…`; take the enclosing one
 					var outer *ast.IfStmt
 					ast.Inspect(fl.Body, func(n ast.Node) bool {
@@ -396,22 +407,32 @@ func c06All(gw, sw, tr *File) map[string]c06Fact {
 		var at ast.Node
 		for _, nm := range []string{"Uint32SliceSize", "Uint32SliceIsValueExist", "Uint32SliceDelete"} {
 			a, n := checkArg(nm)
-			switch a {
-			case "false":
+			// an `IsExistSwamp` test that returns before `SummonSwamp` is as good as checkExist=true
+			guarded := false
+			if fd := gw.Func("Gateway", nm); fd != nil {
+				sums := gw.CallsSuffix(fd.Body, ".SummonSwamp")
+				for _, st := range fd.Body.List {
+					if is, ok := st.(*ast.IfStmt); ok && is.Init != nil && gw.Contains(is.Init, ".IsExistSwamp(") &&
+						gw.Contains(is.Body, "return") && len(sums) == 1 && is.End() < sums[0].Pos() {
+						guarded = true
+					}
+				}
+			}
+			switch {
+			case a == "true" || (a == "false" && guarded):
+				t++
+			case a == "false":
 				f++
 				at = n
-			case "true":
-				t++
 			}
 		}
+		// (a failed increment on a missing swamp is covered by incFailClean: it parks an in-flight treasure)
 		switch {
 		case f+t != 3:
 		case f > 0:
 			fact = c06Fact{No, c06At(gw, at)}
-		case out["incFailClean"].t == Yes:
+		default:
 			fact = c06Fact{Yes, gw.Path}
-		case out["incFailClean"].t == No:
-			fact = c06Fact{No, out["incFailClean"].where}
 		}
 		out["noEmptyLive"] = fact
 	}
